@@ -622,6 +622,15 @@ func c13aText(r *rng, newlineOK, quotesOK bool) string {
 	}
 }
 
+// text of a cumulus FX comment row (free text like any other: it may carry quotes; seeded change
+// C13-cumulus-fx-comment-quote was missed while it could not)
+func c13aComment(r *rng, quotesOK bool) string {
+	if quotesOK && r.chance(60) {
+		return pick(r, []string{"EUR 215.00 Kurs \"Devisen\" 1.0858", "\"", "Kurs \"1.1\"", "say \"hi\" 2x"})
+	}
+	return pick(r, []string{"EUR 12.50, Kurs 1.0834", "USD 9.99 Kurs 1.1", "Fremdwährung; Zuschlag 1.5%", "Ünïcode 漢"})
+}
+
 // csv field: quoted when needed (or at random), quotes doubled
 func c13aCsvField(r *rng, s string, comma byte, always bool) string {
 	need := always || strings.ContainsAny(s, "\"\n\r") || strings.IndexByte(s, comma) >= 0 ||
@@ -992,7 +1001,7 @@ func c13aGenCumulus(r *rng, mal string) c13aCase {
 		if r.chance(25) {
 			k := r.rangeInt(1, 2)
 			for ; k > 0; k-- {
-				fmt.Fprintf(&b, "\"\",,%s,,\n", fld(pick(r, []string{"EUR 12.50, Kurs 1.0834", "USD 9.99 Kurs 1.1", "Fremdwährung; Zuschlag 1.5%", "Ünïcode 漢"})))
+				fmt.Fprintf(&b, "\"\",,%s,,\n", fld(c13aComment(r, quotesOK)))
 			}
 		}
 	}
